@@ -1,4 +1,5 @@
 import HexProofs.Analysis.Dispatch
+import HexProofs.Analysis.UtilsProps
 import HexProofs.Analysis.AmorphContract
 import HexProofs.Lib.IntInst
 /-
@@ -171,5 +172,54 @@ example : ∀ nm ∈ names (.rising "close" 3), Indep Int "RISING" nm := by
   exact indep_attr "RISING" "close" noDot_close (by decide)
 example : ∀ nm ∈ names (.hammer (some 3)), Indep Int "HAMMER" nm := by
   intro nm h; simp [names] at h
+
+
+open Hex Hex.Ana Hex.AUtils
+variable {F : Type} [PyF F]
+
+/-- utils.py, all 17 indexed helpers: `index=None` is `index=len(candles)-1` (also on `[]`: `-1`) -/
+theorem utils_default (f : AUtils.Fn) (cs : List (Candle F)) (len : Option Int) (pct : Option (Num F)) :
+    f.call cs len none pct = f.call cs len (some ((cs.length : Int) - 1)) pct := AUtils.call_default f cs len pct
+/-- … on the empty list: `0 / length` (ZeroDivisionError for length 0) resp. IndexError -/
+theorem utils_default_nil (f : AUtils.Fn) (len : Option Int) (pct : Option (Num F)) :
+    f.call ([] : List (Candle F)) len none pct
+      = if f.isAvg then (AUtils.emptyAvg (f.len len) >>= fun a => pure (f.post pct a)) else .error .indexError :=
+  AUtils.call_default_nil f len pct
+/-- causality of every helper: the answer at `i` is the default answer on `candles[:i+1]` -/
+theorem utils_causal (f : AUtils.Fn) (cs : List (Candle F)) (len : Option Int) (pct : Option (Num F)) (i : Nat)
+    (hi : i < cs.length) :
+    f.call cs len (some (i : Int)) pct = f.call (cs.take (i + 1)) len none pct := AUtils.call_causal_nat f cs len pct i hi
+theorem utils_no_lookahead (f : AUtils.Fn) (cs cs' : List (Candle F)) (len : Option Int) (pct : Option (Num F)) (i : Nat)
+    (hi : i < cs.length) (hi' : i < cs'.length) (hpre : cs.take (i + 1) = cs'.take (i + 1)) :
+    f.call cs len (some (i : Int)) pct = f.call cs' len (some (i : Int)) pct :=
+  AUtils.call_no_lookahead f cs cs' len pct i hi hi' hpre
+/-- the window averages do NOT normalise a negative index: empty window, `0 / length`, for every `i < 0` -/
+theorem utils_negative_index (f : AUtils.Fn) (h : f.isAvg = true) (cs : List (Candle F)) (len : Option Int)
+    (pct : Option (Num F)) (i : Int) (hi : i < 0) :
+    f.call cs len (some i) pct = (AUtils.emptyAvg (f.len len) >>= fun a => pure (f.post pct a)) :=
+  AUtils.call_neg f h cs len pct i hi
+/-- `candle_shadow_long / _verylong` wrap instead -/
+theorem utils_negative_index_wrap (f : AUtils.Fn) (h : f.isAvg = false) (cs : List (Candle F)) (len : Option Int)
+    (pct : Option (Num F)) (j : Int) (h0 : 0 ≤ j) (hj : j < cs.length) :
+    f.call cs len (some (j - cs.length)) pct = f.call cs len (some j) pct := AUtils.call_idx_wrap f h cs len pct j h0 hj
+theorem utils_index_out (f : AUtils.Fn) (h : f.isAvg = false) (cs : List (Candle F)) (len : Option Int)
+    (pct : Option (Num F)) (i : Int) (hi : i < -(cs.length : Int) ∨ (cs.length : Int) ≤ i) :
+    f.call cs len (some i) pct = .error .indexError := AUtils.call_idx_out f h cs len pct i hi
+/-- concrete witness (`Int` carrier, replayed on the library): `realbody_avg(cs, 2, -1) = 0.0 ≠ 4.0 = realbody_avg(cs, 2, 3)` -/
+theorem utils_minus_one_ne_last :
+    AUtils.realbodyAvg AUtils.demo 2 (some (-1)) ≠ AUtils.realbodyAvg AUtils.demo 2 (some ((AUtils.demo.length : Int) - 1)) :=
+  AUtils.realbodyAvg_minus_one_ne_last
+/-- the divisor is `length`, also over a clamped window -/
+theorem utils_divisor (f : AUtils.Fn) (h : f.isAvg = true) (cs : List (Candle F)) (len : Option Int) (pct : Option (Num F))
+    (i : Int) (h0 : 0 ≤ i) (hi : i < cs.length) :
+    f.call cs len (some i) pct
+      = ((pySum ((AUtils.window cs (f.len len) i).map f.field)).truediv (.int (f.len len))
+          >>= fun a => pure (f.post pct a)) := AUtils.call_window f h cs len pct i h0 hi
+theorem utils_divisor_exact {K : Type} [Field K] [LinearOrder K] [IsStrictOrderedRing K] [LawfulPyF K]
+    (g : Candle K → Num K) (cs : List (Candle K)) (length i : Int)
+    (h0 : 0 ≤ i) (hi : i < cs.length) (hl : length ≠ 0) :
+    Pat.avgOf g cs length i
+      = .ok (.flt ((((AUtils.window cs length i).map fun c => (g c).toF).sum) / (length : K))) :=
+  AUtils.avgOf_exact g cs length i h0 hi hl
 
 end Hex.C16
